@@ -29,6 +29,12 @@ checks.update({
  "C18": ("model_checking", "exhaustive enumeration of strings s, flag sets and derived haystacks against substring search",
          "All strings over a 29-character alphabet (every syntax character, class punctuators, case pairs, multibyte, newline) up to length 3 (4 thorough) x all 24 flag sets x haystacks derived from s: escape(s) compiles, only inserts backslashes, and its matches are exactly the (case-insensitive under i) occurrences of s.", "4 C18"),
 })
+checks.update({
+ "C10": ("model_checking", "complete enumeration of the code space (0..=0x10FFFF x both modes) against an independent Unicode 17 oracle, at hook level and through the public API",
+         "Exhaustive, not bounded, at hook level: for every code point and both modes the partition induced by Canonicalize, the compile-time literal expansion and the class closure equal the oracle derived from ICU 78.2. Through the public API /c/, /[c]/, /[^c]/, backreference, \\w \\W [\\w] \\b under i, iu, iv for every candidate code point (quick) and /c/ for every scalar over the all-scalars haystack (thorough).", "4 C10"),
+ "C11": ("model_checking", "complete enumeration: every candidate property expression x {u,v} x {\\p,\\P} for acceptance, every accepted expression over all scalar values for membership, a judged universe of 73k strings for properties of strings",
+         "Acceptance of 42k candidate expressions equals the ES tables as implemented by V8; each of the 1,714 accepted expressions is matched over a haystack holding every scalar value and must denote exactly the ICU 78.2 (Unicode 17) set, \\P its complement; properties of strings are compared by membership over a universe of 73,056 judged strings.", "4 C11"),
+})
 not_applicable = {
 }
 PENDING = "check not built yet in this round (planned in DESIGN.md section 10); nothing is claimed for it until it exists"
